@@ -21,13 +21,13 @@ type RWMutex struct {
 }
 
 func (m *RWMutex) Lock() {
-	vsched.Point("Lock", func() bool { return !m.w && m.r == 0 })
+	vsched.PointO("Lock", m, func() bool { return !m.w && m.r == 0 })
 	m.w = true
 	vsched.Acquire(m)
 	vsched.Acquire(rkey{m})
 }
 func (m *RWMutex) Unlock() {
-	vsched.Point("Unlock", nil)
+	vsched.PointO("Unlock", m, nil)
 	if !m.w && vsched.Active() {
 		panic("vsync: Unlock of unlocked RWMutex")
 	}
@@ -35,12 +35,12 @@ func (m *RWMutex) Unlock() {
 	m.w = false
 }
 func (m *RWMutex) RLock() {
-	vsched.Point("RLock", func() bool { return !m.w })
+	vsched.PointO("RLock", m, func() bool { return !m.w })
 	m.r++
 	vsched.Acquire(m)
 }
 func (m *RWMutex) RUnlock() {
-	vsched.Point("RUnlock", nil)
+	vsched.PointO("RUnlock", m, nil)
 	if m.r <= 0 && vsched.Active() {
 		panic("vsync: RUnlock of unlocked RWMutex")
 	}
@@ -60,12 +60,12 @@ func (r *rlocker) Unlock() { (*RWMutex)(r).RUnlock() }
 type Mutex struct{ held bool }
 
 func (m *Mutex) Lock() {
-	vsched.Point("Lock", func() bool { return !m.held })
+	vsched.PointO("Lock", m, func() bool { return !m.held })
 	m.held = true
 	vsched.Acquire(m)
 }
 func (m *Mutex) Unlock() {
-	vsched.Point("Unlock", nil)
+	vsched.PointO("Unlock", m, nil)
 	vsched.Release(m)
 	m.held = false
 }
@@ -73,14 +73,14 @@ func (m *Mutex) Unlock() {
 type WaitGroup struct{ n int }
 
 func (w *WaitGroup) Add(d int) {
-	vsched.Point("wg.Add", nil)
+	vsched.PointO("wg.Add", w, nil)
 	w.n += d
 	if w.n < 0 && vsched.Active() {
 		panic("sync: negative WaitGroup counter")
 	}
 }
 func (w *WaitGroup) Done() {
-	vsched.Point("wg.Done", nil)
+	vsched.PointO("wg.Done", w, nil)
 	vsched.Release(w)
 	w.n--
 	if w.n < 0 && vsched.Active() {
@@ -88,7 +88,7 @@ func (w *WaitGroup) Done() {
 	}
 }
 func (w *WaitGroup) Wait() {
-	vsched.Point("wg.Wait", func() bool { return w.n <= 0 })
+	vsched.PointO("wg.Wait", w, func() bool { return w.n <= 0 })
 	vsched.Acquire(w)
 }
 
@@ -128,13 +128,13 @@ func OnceValues[T1, T2 any](f func() (T1, T2)) func() (T1, T2) {
 
 // Pool is LIFO and deterministic so that buffers are recycled as early as possible.
 type Pool struct {
-	New   func() any
-	items []any
+	New          func() any
+	items        []any
 	Gets, Reuses int
 }
 
 func (p *Pool) Get() any {
-	vsched.Point("pool.Get", nil)
+	vsched.PointO("pool.Get", p, nil)
 	p.Gets++
 	if n := len(p.items); n > 0 {
 		it := p.items[n-1]
@@ -149,7 +149,7 @@ func (p *Pool) Get() any {
 	return nil
 }
 func (p *Pool) Put(x any) {
-	vsched.Point("pool.Put", nil)
+	vsched.PointO("pool.Put", p, nil)
 	vsched.Release(p)
 	p.items = append(p.items, x)
 }
@@ -190,7 +190,7 @@ func (c *Cond) Wait() {
 
 // TryLock variants.
 func (m *Mutex) TryLock() bool {
-	vsched.Point("TryLock", nil)
+	vsched.PointO("TryLock", m, nil)
 	if m.held {
 		return false
 	}
@@ -199,7 +199,7 @@ func (m *Mutex) TryLock() bool {
 	return true
 }
 func (m *RWMutex) TryLock() bool {
-	vsched.Point("TryLock", nil)
+	vsched.PointO("TryLock", m, nil)
 	if m.w || m.r > 0 {
 		return false
 	}
@@ -209,7 +209,7 @@ func (m *RWMutex) TryLock() bool {
 	return true
 }
 func (m *RWMutex) TryRLock() bool {
-	vsched.Point("TryRLock", nil)
+	vsched.PointO("TryRLock", m, nil)
 	if m.w {
 		return false
 	}
@@ -235,7 +235,7 @@ type Map struct {
 }
 
 func (m *Map) pt(op string) {
-	vsched.Point("map."+op, nil)
+	vsched.PointO("map."+op, m, nil)
 	vsched.Acquire(m)
 	vsched.Release(m)
 	if m.m == nil {
